@@ -8,6 +8,8 @@
                     and an error must be reported                       when it is not
      round trips    text -> wire -> text = (lower-cased) text, wire -> text -> wire = wire
      Digest         weighted sums of a whole function table over one chunk of the 2^24 AMF identifiers
+   Every result is logged twice: read at once (ots / ob / on) and read again from the retained return values after
+   later calls (hts / hb / hn, hc = number of those calls); the two readings must agree.
    The spec is total: a mismatch prints <<"MISMATCH", l, op, class>> and the cursor moves on.
    Inputs outside the domain of the property (octets that are no valid identity of the kind the function
    is for) give no verdict; they are counted, the last event prints the counts. *)
@@ -193,13 +195,17 @@ NoteOf(e) ==
     [] e.op = "SuciToStringWithError" /\ Len(e.b) < 9 /\ (Len(e.b) = 0 \/ e.b[1] \div 16 = 0) /\ ~e.err /\ ~e.panic -> "suci-short-accepted"
     [] OTHER -> ""
 
+\* A result is a value: what the caller reads from the returned slices / strings / structs after further calls of the
+\* same function (with other arguments) and of other functions were made must be what it read when the call returned.
+Held(e) == e.hts = e.ots /\ e.hb = e.ob /\ e.hn = e.on
 TInit == l = 1 /\ TLCSet(2, 0) /\ TLCSet(3, 0) /\ TLCSet(4, 0) /\ TLCSet(5, 0)
 TNext ==
   /\ l <= Len(TraceLog)
   /\ LET e == TraceLog[l]
          j == Judge(e)
          n == NoteOf(e)
-     IN /\ CASE j = OK -> TLCSet(4, TLCGet(4) + 1)
+     IN /\ CASE j = OK /\ Held(e) -> TLCSet(4, TLCGet(4) + 1)
+             [] j = OK -> PrintT(<<"MISMATCH", l, e.op, "result-changed-after-return">>)
              [] j = SKIP -> TLCSet(5, TLCGet(5) + 1)
              [] OTHER -> PrintT(<<"MISMATCH", l, e.op, j>>)
         /\ IF n = "" \/ TLCGet(3) >= 5 THEN TRUE ELSE PrintT(<<"MISMATCH", l, "NOTE", n>>) /\ TLCSet(3, TLCGet(3) + 1)
